@@ -113,7 +113,7 @@ class NetworkXPropertyGraph(ABCPropertyGraph, NetworkXMixin):
         # very similar to Neo4j, but doesn't compare to NEO4j_NONE
         _, node_props = self.get_node_properties(node_id=node_id)
         prop_str = node_props.get(prop_name, None)
-        if prop_str is None:
+        if prop_str is None or prop_str == '':
             return None
         try:
             prop_val = json.loads(prop_str)
